@@ -191,6 +191,30 @@ def run(ctx):
     for nm, want in (("forward", "return self._transform.forward(x, context=context)"), ("inverse", "return self._transform.inverse(z, context=context)"), ("base_distribution_log_prob", "return self._distribution.log_prob(z)")):
         ctx.ob("R-SIB", "C08.4", nf.methods[nm], f"{nm} delegates to the transform / distribution it names", len(find_stmt(want, nf.methods[nm].node)) == 1, "")
     ctx.floor("C08.4", 6)
+    # ---- C08.7 a re-initialised cached linear transform drops its cache -------------------------------------------
+    # glasflow's LULinear caches weight, inverse and log|det| separately in eval mode (create_linear_transform builds
+    # it with using_cache=True) and only train(True) clears them: re-initialising the parameters while a partly filled
+    # cache survives makes forward and inverse use different matrices.  Every `m._initialize(...)` in the flows
+    # package is therefore paired, in the same block, with `m.cache.invalidate()` on the same module.
+    n_init = 0
+    for f_ in prog.all_functions:
+        if not f_.module.name.startswith("nessai.flows") and not f_.module.name.startswith("nessai.flowmodel"):
+            continue
+        for blk_owner in ast.walk(f_.node):
+            for fld in ("body", "orelse", "finalbody"):
+                blk = getattr(blk_owner, fld, None)
+                if not (isinstance(blk, list) and blk and isinstance(blk[0], ast.stmt)):
+                    continue
+                for st_ in blk:
+                    if isinstance(st_, ast.Expr) and isinstance(st_.value, ast.Call) and isinstance(st_.value.func, ast.Attribute) and st_.value.func.attr == "_initialize":
+                        recv = src(st_.value.func.value)
+                        n_init += 1
+                        inval = any(isinstance(o_, ast.Expr) and isinstance(o_.value, ast.Call) and src(o_.value.func) == recv + ".cache.invalidate" for o_ in blk)
+                        ctx.ob("R-PAIR", "C08.7", f_, "re-initialising a cached linear transform also invalidates its cache (same module, same block)", inval, f"`{src(st_)[:70]}`" + ("" if inval else f": no `{recv}.cache.invalidate()` next to it - a cache filled in one direction survives the reset"), node=st_)
+    ctx.require(n_init >= 1, "no `_initialize` call found in the flows package (reset_permutations expected)")
+    cl_ = ctx.fn("nessai.flows.utils:create_linear_transform")
+    ctx.ob("R-PAIR", "C08.7", cl_, "the LU transform is built with its cache enabled (which is why resets must invalidate it)", any(isinstance(c_, ast.Call) and (call_name(c_) or "").endswith("LULinear") and any(k.arg == "using_cache" and isinstance(k.value, ast.Constant) and k.value.value is True for k in c_.keywords) for c_ in ast.walk(cl_.node)), "")
+    ctx.floor("C08.7", 2)
     ctx.assumptions += ["invertibility and normalisation of the glasflow transforms, float tolerances and trained-weight behaviour are not decided", "direction table of map names (sa/rules/sign.py): forward/rescale/to_prime/_transform are data->latent, inverse/inverse_rescale/from_prime are latent->data"]
 
 
@@ -291,6 +315,7 @@ MUTANTS = [
     {"id": "nflow-logprob-drops-det", "file": _B, "old": "        return log_prob + logabsdet", "new": "        return log_prob", "expect": "dropped"},
     {"id": "flowmodel-latent-sign", "file": _FM, "old": "                log_prob -= log_J\n", "new": "                log_prob += log_J\n", "expect": "enters the density with -"},
     {"id": "flowmodel-wrong-latent-density", "file": _FM, "old": "            if alt_dist is not None:\n                log_prob_fn = alt_dist.log_prob\n            else:\n                log_prob_fn = self.model.base_distribution_log_prob", "new": "            log_prob_fn = self.model.base_distribution_log_prob", "expect": "alt_dist.log_prob iff"},
+    {"id": "lu-reinitialised-with-stale-cache", "file": "nessai/flows/utils.py", "old": "        module.cache.invalidate()\n        module._initialize(identity_init=True)", "new": "        module._initialize(identity_init=True)", "expect": "invalidates its cache"},
     {"id": "forward-pass-drops-rescale-jacobian", "file": _FP, "old": "        return z, log_prob + log_J\n", "new": "        return z, log_prob\n", "expect": "C08.1"},
     {"id": "backward-pass-sign", "file": _FP, "old": "            # Include Jacobian for the rescaling\n            log_prob -= log_J\n            x, z, log_prob", "new": "            # Include Jacobian for the rescaling\n            log_prob += log_J\n            x, z, log_prob", "expect": "enters the density with -"},
     {"id": "augmented-backward-drops-jacobian", "file": "nessai/proposal/augmented.py", "old": "            # Include Jacobian for the rescaling\n            log_prob -= log_J\n", "new": "", "expect": "dropped"},
